@@ -120,8 +120,10 @@ def make_case(index, rng, tier):
         return make_concurrent_case(index, rng, tier)
     ninst = rng.randrange(2, 4)
     ops = []
-    pre = rng.randrange(6)
-    if pre == 0:
+    pre = rng.randrange(7)
+    if pre == 6:
+        ops.append(["foreign", PATH, rng.choice(["0\n", "0", "\n", " "])])       # no process at all (kill(0, 0) probes our own group)
+    elif pre == 0:
         ops.append(["foreign", PATH, "garbage"])
     elif pre == 1:
         ops.append(["foreign", PATH, "4242\n"])          # dead pid
@@ -303,7 +305,9 @@ def _play(case, choices, res, fault, _unused, target):
             trace.append((kind, i, outcome, val))
             if outcome == "ok":
                 exp = bp if isinstance(bp, int) and model_live(bp) else None
-                if val != exp:
+                if val != exp and not (exp is None and not val):
+                    # validate() is only ever asked "does this name a running process": any false value is a no (a file that holds 0
+                    # makes it return that 0 - the probe of the caller's own process group succeeds - and create() goes on)
                     res.violate("C17:validate", "validate() returned %r, file holds %r (live=%s); %s" % (val, before, exp is not None, ctx()))
             if w.content(pf[i].fname) != before:
                 res.violate("C17:validate-modified", "validate() changed the file; %s" % ctx())
